@@ -76,7 +76,9 @@ pub fn check_session(kind: &str, stream: &[u8], cuts: &[usize], flavor: Flavor, 
     let ok = s.responses == expect.responses && expect.ends.contains(&s.end);
     // bounded reads: one per segment, plus one per receive call, plus buffer clipping
     let seg = cuts.len() as u64 + 1;
-    let read_cap = seg + (stream.len() as u64 / 64) + expect.responses.len() as u64 + 8 + mask.count_ones() as u64;
+    // (one per byte is the most any buffer-growth policy can need; an unbounded read loop is
+    // caught separately by the reader's after-end cap)
+    let read_cap = seg + stream.len() as u64 + expect.responses.len() as u64 + 64 + mask.count_ones() as u64;
     if st.reads.get() > read_cap {
         acc.viol.push(Violation::new(
             format!("{kind}/too-many-reads"),
